@@ -153,8 +153,13 @@ def bigbig_pairs(rng, k, op, n):
     if op in (4, 5):
         base = [(c, a), (a, 0), (c, e), (a, c), (c, d), (c, 1), (a, a), (0, a), (big(rng, 2 * L), a), (c, (1 << 31) - 1),
                 (c, 1 << 32), (e, 0), (0, 0), (a * c, a), (a * c + 1, c), (c, (1 << 31) + 5)] + base
-    if op == 2:
-        base = [(c, a), (a, c), (a, a), (a + 1, a), (a, a + 1), (0, e), (val([0] * L + [1]), 1)] + base
+    if op in (1, 2):
+        # subtraction (and addition of opposite signs): the subtrahend equal to the low digits of the minuend, to the
+        # minuend minus a power of the digit base, … — the shapes where a borrow does or does not leave the common part
+        lowj = lambda x, j: x % (1 << (64 * j))
+        base = [(c, a), (a, c), (a, a), (a + 1, a), (a, a + 1), (0, e), (val([0] * L + [1]), 1),
+                (a, lowj(a, 1)), (a, lowj(a, 2)), (c, lowj(c, L)), (c, lowj(c, L) + 1), (lowj(a, 3), a), (a, a - lowj(a, 2)),
+                (a, a - (1 << 64)), (a - (1 << 128), a), (c, c >> 64), (val([5, 7, 9]), val([5, 7])), (val([5, 7]), val([5, 7, 9]))] + base
     if op in (6, 7, 8):
         # bit operators: operands whose two's-complement carry runs through whole digits (powers of the digit
         # base, B^j - 1, low zero digits) with unequal lengths, so the in-place kernels that reuse one
@@ -163,15 +168,25 @@ def bigbig_pairs(rng, k, op, n):
         base = [(1, Bj[0]), (Bj[0], 1), (1, Bj[1]), (Bj[1], Bj[0]), (Bj[0] - 1, Bj[1]), (Bj[1], Bj[0] - 1), (Bj[2], Bj[2]),
                 (Bj[0] + 1, Bj[2]), (Bj[3], 3), (3, Bj[3]), (Bj[1] - 1, Bj[1] - 1), (a << 128, e), (e, a << 128),
                 (a << 64, c), (c, a << 64), (Bj[2] - Bj[0], Bj[1]), (2, Bj[0]), (Bj[0], 2)] * 4 + base
+    # every base pair, for BigInt in all four sign combinations (a kernel chosen by the sign pair and by which operand is
+    # longer must meet every special shape: a rotating sample made detection a matter of luck), then noisy copies
     out = []
+    uniq = []
+    for p_ in base:
+        if p_ not in uniq:
+            uniq.append(p_)
+    for (x, y) in uniq:
+        if k == 2:
+            for sx, sy in ((1, 1), (-1, 1), (1, -1), (-1, -1)):
+                out.append((sx * x, sy * y))
+        else:
+            out.append((x, y))
     i = 0
     while len(out) < n:
-        x, y = base[i % len(base)]
-        if i >= len(base):
-            x = x ^ rng.randrange(1 << 60) if x else x
+        x, y = uniq[i % len(uniq)]
+        x = x ^ rng.randrange(1 << 60) if x else x
         if k == 2:
-            sx = [1, -1, -1, 1][(i // 1) % 4]; sy = [1, 1, -1, -1][(i // 1 + i // len(base)) % 4]
-            x, y = sx * x, sy * y
+            x, y = rng.choice([1, -1]) * x, rng.choice([1, -1]) * y
         out.append((x, y))
         i += 1
     return out
@@ -300,7 +315,8 @@ def gen(rng, tier):
         k, op, shape, t, var = decode(i)
         if shape in (0, 4) and op <= 8:
             g = group((k, op, "bb"), lambda: bigbig_pairs(rng, k, op, 8 * N))
-            for (x, y) in take(g, N):
+            # the whole list for every form (there are only ~100 big∘big forms)
+            for (x, y) in take(g, len(g[0])):
                 reqs.append("C10 form %d %s %s" % (i, wb(k, x), wb(k, y)))
         elif op in (12, 13, 14, 15):
             src = {12: 1, 13: 2, 14: 3, 15: 4}[op]
